@@ -13,7 +13,7 @@ MERGE_THEOREMS = ["ZwVerif.Merge." + t for t in
 # stages compose: for every upstream machine, an operator that feeds a chain yields per item what the chain yields; chains compose
 PIPE_THEOREMS = ["ZwVerif.Pipe." + t for t in
                  ["nest_refines", "nest_only_behaviour", "nest_det", "pipeline_refines", "pipeline_only_behaviour", "comp_f",
-                  "comp_assoc_f", "three_stage_pipeline", "drain_det", "listSrc_drain", "nestNum_refines"]]
+                  "comp_assoc_f", "three_stage_pipeline", "drain_det", "listSrc_drain", "nestNum_refines", "stringerChain_f", "format_refines"]]
 
 CORPUS = [
     "(1, 2) ((3, 4) || 5)", "(1,2) (let A := (3,4); A)", "(1,2) ((3,4) dup, 5)", "[(1,2) (3,4)]",
